@@ -13,6 +13,7 @@ JSON AST: None | bool | int | float | str | bytes | list | ("obj", [(key, value)
 """
 import json
 import math
+import os
 import re
 import struct
 
@@ -439,17 +440,30 @@ class ImplTrace:
                 self.expired[si].append(ev[2])
 
 
+_MIN_BITS = {}
+
+
+def min_timeout_bits():
+    """IEEE-754 image of MIN_TIMEOUT_IN_S as the tree under test defines it (src/timer.c)."""
+    if C.SRC not in _MIN_BITS:
+        m = re.search(r"MIN_TIMEOUT_IN_S\s*=\s*([0-9.eE+-]+)\s*;", open(os.path.join(C.SRC, "timer.c")).read())
+        if not m:
+            raise C.BuildError("MIN_TIMEOUT_IN_S not found in timer.c")
+        _MIN_BITS[C.SRC] = struct.unpack(">Q", struct.pack(">d", float(m.group(1))))[0]
+    return _MIN_BITS[C.SRC]
+
+
 def model_script(sc, tr, oracle_override=None):
     """Lean driver script from the scenario + the oracle values observed on the implementation.
     Returns (lines, opmap) with opmap[j] = scenario step index of the j-th model operation.
     oracle_override: {scenario step: send-result string} (see run_scenario)."""
     oracle_override = oracle_override or {}
     cfgv = C.config_values(sc.variant)
-    lines = ["cfg localOnly=%d auth=%d maxMatchers=%s initFetch=%s defaultNs=%d name=%s version=%s" % (
+    lines = ["cfg localOnly=%d auth=%d maxMatchers=%s initFetch=%s defaultNs=%d minBits=%d name=%s version=%s" % (
         1 if cfgv.get("CONFIG_ALLOW_ADD_ONLY_FROM_LOCALHOST", "false") == "true" else 0,
         1 if sc.users else 0,
         cfgv["CONFIG_MAX_NUMBERS_OF_MATCHERS_IN_FETCH"], cfgv["CONFIG_INITIAL_FETCH_TABLE_SIZE"],
-        int(float(cfgv["CONFIG_ROUTED_MESSAGES_TIMEOUT"]) * 1e9),
+        int(float(cfgv["CONFIG_ROUTED_MESSAGES_TIMEOUT"]) * 1e9), min_timeout_bits(),
         C.hexs(cfgv["PROJECT_NAME"].encode()), C.hexs((cfgv["CJET_VERSION"] + cfgv["CJET_LAST"]).encode()))]
     for g in sc.groups:
         lines.append("group " + C.hexs(sbytes(g)))
